@@ -28,6 +28,7 @@ def run(ctx):
             jobs.append((lpc, ["isap", alg, (20 if ctx.thorough else 10) if main else 6], be))
     jobs.sort(key=lambda j: 0 if j[1][1] == 'isap' else 1)
     common.parallel(lambda j: common.run_harness(ctx, j[0], j[1], label=j[2]), jobs)
+    common.align_jobs(ctx, jobs, lambda j: j[2] in ("asm", "c64") and j[1][0] == "enc" and j[1][3] == 3)
     common.mid_lengths(ctx, ["siv:0", "siv:1", "siv:2", "isap:0", "isap:1", "isap:2", "siv-ad:0", "siv-ad:1", "siv-ad:2", "isap-ad:0", "isap-ad:1", "isap-ad:2"], ("asm", "c64", "c32", "dxor", "generic") if ctx.thorough else ("asm", "c32"))
     if ctx.thorough:
         common.huge_lengths(ctx, ["siv:0", "siv:1", "siv:2", "isap:0", "isap:1", "isap:2", "siv-ad:0", "siv-ad:1", "siv-ad:2", "isap-ad:0", "isap-ad:1", "isap-ad:2"], jobs=3)
